@@ -120,7 +120,7 @@ func subprocessResult(spec *RunSpec) (class, detail string) {
 		return "", ""
 	}
 	cmd := exec.Command(os.Args[0], "execspec", p)
-	cmd.Env = append(os.Environ(), "GORACE=log_path="+filepath.Join(dir, "race")+" halt_on_error=0 atexit_sleep_ms=0")
+	cmd.Env = append(os.Environ(), "GORACE=log_path="+filepath.Join(dir, "race")+" halt_on_error=0 atexit_sleep_ms=0 exitcode=0")
 	out, _ := cmd.Output()
 	for _, l := range strings.Split(string(out), "\n") {
 		if strings.HasPrefix(l, "CLASS ") {
